@@ -43,12 +43,13 @@ package cache
 
 // Two requests get the same key exactly when they agree in scheme, method, lower-cased
 // host, normalised path and raw query.
-//@ props C02 C16
+// (also C01: the key is the coalescing key - two resources under one key get one body)
+//@ props C02 C16 C01
 //@ func MakeFromRequest
 //@   nopanic
 //@   pure
 //@   requires r != nil && r.URL != nil
-//@   ensures [C02] sid(result.Hex) == specKeyHex(r.TLS != nil ? sid("https") : sid("http"), sid(r.Method), sid(r.Host), escpath(sid(r.URL.Path), sid(r.URL.RawPath)), sid(r.URL.RawQuery))
+//@   ensures [C02,C01] sid(result.Hex) == specKeyHex(r.TLS != nil ? sid("https") : sid("http"), sid(r.Method), sid(r.Host), escpath(sid(r.URL.Path), sid(r.URL.RawPath)), sid(r.URL.RawQuery))
 
 // L1: equal keys only for equal components (BLAKE2b collision resistance assumed).
 //@ props C02
@@ -421,11 +422,12 @@ package cache
 
 // The limit listeners follow the value they are told (not whatever the configuration reads as
 // at that moment: a staged value is announced before it is committed).
-//@ props C19 C16
+//@ props C19 C16 C12
 //@ func NewFileCache$1
 //@   nopanic
-//@   requires c != nil && c.maxCacheSize.val != nil
+//@   requires c != nil && c.maxCacheSize.val != nil && c.byteSize.val != nil && c.byteSize.val != c.maxCacheSize.val      // two cells, made by the constructor
 //@   ensures [C19] c.maxCacheSize.val.v == newSize
+//@   ensures [C12] c.byteSize.val.v == old(c.byteSize.val.v)
 
 // The memory-budget listener computes and publishes the new cap under the cache's lock
 // (and reads it back only there).  The byte counter the limit is compared with is exact
@@ -435,11 +437,12 @@ package cache
 //@   nopanic
 //@   requires c != nil
 
-//@ props C19 C16
+//@ props C19 C16 C12
 //@ func NewMemoryCache$1
 //@   nopanic
-//@   requires c != nil && c.maxCacheSize.val != nil
+//@   requires c != nil && c.maxCacheSize.val != nil && c.byteSize.val != nil && c.byteSize.val != c.maxCacheSize.val      // two cells, made by the constructor
 //@   ensures [C19] c.maxCacheSize.val.v == newSize
+//@   ensures [C12] c.byteSize.val.v == old(c.byteSize.val.v)
 
 // A new file cache starts from a cleared directory with an empty record and a zero
 // counter: the representation invariant holds before the first request.
